@@ -109,19 +109,22 @@ type c19IPCase struct {
 }
 
 var c19IPHandlers = []string{"direct_post", "direct_post", "direct_post", "direct_post", "token_s2s", "token_s2s", "token_code", "token_code", "token_other",
-	"authorize", "authorize", "request_get", "request_post", "introspect", "callback", "callback", "getter", "getter"}
+	"authorize", "authorize", "authorize_wallet", "authorize_wallet", "authorize_wallet", "request_get", "request_post", "introspect", "callback", "callback", "getter", "getter"}
 
 var c19IPTargets = map[string][]string{
-	"direct_post":  {"", "vp_claims", "vp_claims", "vp_header", "vc_claims", "submission", "submission", "vp_const", "vp_const", "sub_const", "envelope"},
-	"token_s2s":    {"", "vp_claims", "vp_claims", "vp_header", "vc_claims", "submission", "submission", "vp_const", "sub_const", "envelope"},
-	"token_code":   {"", "", "dpop_claims"},
-	"token_other":  {""},
-	"authorize":    {"", "jar_claims", "jar_claims", "jar_header"},
-	"request_get":  {""},
-	"request_post": {"", "wallet_metadata", "wallet_metadata"},
-	"introspect":   {""},
-	"callback":     {""},
-	"getter":       {""},
+	"direct_post": {"", "vp_claims", "vp_claims", "vp_header", "vc_claims", "submission", "submission", "vp_const", "vp_const", "sub_const", "envelope"},
+	"token_s2s":   {"", "vp_claims", "vp_claims", "vp_header", "vc_claims", "submission", "submission", "vp_const", "sub_const", "envelope"},
+	"token_code":  {"", "", "dpop_claims"},
+	"token_other": {""},
+	"authorize":   {"", "jar_claims", "jar_claims", "jar_header"},
+	// the wallet role of /authorize: an OpenID4VP authorization request from a (remote) verifier; presentation_definition and
+	// client_metadata arrive inline (as JSON inside a string claim) or by reference
+	"authorize_wallet": {"", "", "", "pd_inline", "pd_inline", "md_inline", "jar_claims"},
+	"request_get":      {""},
+	"request_post":     {"", "wallet_metadata", "wallet_metadata"},
+	"introspect":       {""},
+	"callback":         {""},
+	"getter":           {""},
 }
 
 var c19IPKeys = []string{"iss", "sub", "aud", "exp", "nbf", "iat", "jti", "nonce", "vp", "vc", "type", "@context", "verifiableCredential", "credentialSubject", "holder", "id",
@@ -157,6 +160,11 @@ func c19IPGen(t *rapid.T) c19IPCase {
 	}
 	return c
 }
+
+// what the verifier's request carries as presentation_definition / client_metadata (literals are the content of the string claim).
+// Saved replays select by index (Variant/3 and Variant/97): append only, do not reorder.
+var c19IPPDKinds = []string{"uri", "uri", "inline", "inline", "null", "null", "{}", "[]", "1", "\"x\"", "{", "", "uri-zero", "uri-error", "both", "absent", "object", "[null]", "{\"input_descriptors\":null}", "{\"input_descriptors\":[null]}", "{\"id\":\"x\",\"input_descriptors\":[{\"id\":\"1\",\"constraints\":null}]}"}
+var c19IPMDKinds = []string{"uri", "uri", "uri", "inline", "inline", "null", "null", "{}", "[]", "1", "{", "uri-zero", "uri-error", "both", "absent", "{\"vp_formats\":null}", "{\"vp_formats\":{\"jwt_vp_json\":null}}"}
 
 // hostile constants
 var c19IPVPConsts = []string{"[]", "[null]", "{}", "", "null", "[[]]", "[[[]],[]]", "[{}]", "\"\"", "[\"\"]", "[1]", "true", "{\"verifiableCredential\":[]}", "[\"a.b.c\"]", "a.b.c", "."}
@@ -209,10 +217,12 @@ func (c19IPDIDRes) Resolve(id did.DID, _ *resolver.ResolveMetadata) (*did.Docume
 
 type c19IPRevStore struct{}
 
-func (c19IPRevStore) GetRevocations(ssi.URI) ([]*credential.Revocation, error) { return nil, verifier.ErrNotFound }
-func (c19IPRevStore) StoreRevocation(credential.Revocation) error               { return nil }
-func (c19IPRevStore) Close() error                                               { return nil }
-func (c19IPRevStore) Diagnostics() []core.DiagnosticResult                       { return nil }
+func (c19IPRevStore) GetRevocations(ssi.URI) ([]*credential.Revocation, error) {
+	return nil, verifier.ErrNotFound
+}
+func (c19IPRevStore) StoreRevocation(credential.Revocation) error { return nil }
+func (c19IPRevStore) Close() error                                { return nil }
+func (c19IPRevStore) Diagnostics() []core.DiagnosticResult        { return nil }
 
 // c19IPSigner signs with the fixed key whatever kid is asked for (same steps as the key store's signer).
 type c19IPSigner struct{}
@@ -345,6 +355,11 @@ func (e c19IPEngine) GetSessionDatabase() storage.SessionDatabase { return e.db 
 // `requestObject` is what a request_uri dereferences to (set per step).
 type c19IPRemote struct {
 	requestObject string
+	pdMode        string // what presentation_definition_uri dereferences to: "" valid | zero (the remote answered null / {}) | error
+	mdMode        string // same for client_metadata_uri
+	pd            *pe.PresentationDefinition
+	postedError   string // description of the last error posted to the verifier's response_uri
+	postedVP      int
 }
 
 var _ iamclient.Client = (*c19IPRemote)(nil)
@@ -369,16 +384,37 @@ func (c *c19IPRemote) AuthorizationServerMetadata(_ context.Context, issuer stri
 	m := c.asMetadata(issuer)
 	return &m, nil
 }
+
+// ClientMetadata / PresentationDefinition answer like the real client (auth/client/iam.HTTPClient) does: it decodes the remote's
+// body into a value and returns a pointer to it, so a remote answering `null` or `{}` yields a non-nil zero value.
 func (c *c19IPRemote) ClientMetadata(context.Context, string) (*oauth.OAuthClientMetadata, error) {
+	switch c.mdMode {
+	case "zero":
+		return &oauth.OAuthClientMetadata{}, nil
+	case "error":
+		return nil, fmt.Errorf("failed to retrieve OAuth client metadata: server returned HTTP 404")
+	}
 	return &oauth.OAuthClientMetadata{VPFormats: oauth.DefaultOpenIDSupportedFormats()}, nil
 }
-func (c *c19IPRemote) PostError(context.Context, oauth.OAuth2Error, string, string) (string, error) {
+func (c *c19IPRemote) PostError(_ context.Context, e oauth.OAuth2Error, _ string, _ string) (string, error) {
+	c.postedError = string(e.Code) + ":" + e.Description
 	return "https://verifier.example.org/redirect", nil
 }
 func (c *c19IPRemote) PostAuthorizationResponse(context.Context, vc.VerifiablePresentation, pe.PresentationSubmission, string, string) (string, error) {
+	c.postedVP++
 	return "https://verifier.example.org/redirect", nil
 }
 func (c *c19IPRemote) PresentationDefinition(context.Context, string) (*pe.PresentationDefinition, error) {
+	switch c.pdMode {
+	case "zero":
+		return &pe.PresentationDefinition{}, nil
+	case "error":
+		return nil, fmt.Errorf("failed to retrieve presentation definition: server returned HTTP 404")
+	}
+	if c.pd != nil {
+		cp := *c.pd
+		return &cp, nil
+	}
 	return &pe.PresentationDefinition{Id: "remote"}, nil
 }
 func (c *c19IPRemote) RequestRFC021AccessToken(context.Context, string, string, string, string, bool, []vc.VerifiableCredential) (*oauth.TokenResponse, error) {
@@ -488,8 +524,15 @@ func c19IPNewFix(x *h.Ctx, posted bool) *c19IPFix {
 	db := storage.NewVerifSessionDatabase(go_cache.NewGoCache(f.cache))
 	publicURL, _ := url.Parse(c19IPPublicURL)
 	a := c19IPAuth{publicURL: publicURL, iam: f.remote}
+	ownCred, err := vc.ParseVerifiableCredential(f.env.vcJWT)
+	x.NoErr(err, "parse credential")
+	if mapping, err := f.env.pdp.PresentationDefinitions(context.Background(), c19IPScope); err == nil {
+		pd := mapping[pe.WalletOwnerOrganization]
+		f.remote.pd = &pd
+	}
+	ownWallet := map[did.DID][]vc.VerifiableCredential{did.MustParseDID("did:web:example.com:iam:verifier"): {*ownCred}, did.MustParseDID("did:web:example.com:iam:other"): {*ownCred}}
 	f.w = Wrapper{auth: a, policyBackend: f.env.pdp, storageEngine: c19IPEngine{db: db}, jsonldManager: f.env.ld,
-		vcr: c19IPVCR{v: f.env.v, w: holder.NewMemoryWallet(f.env.ld.DocumentLoader(), c19IPKeysRes{}, c19IPSigner{}, nil)}, jwtSigner: c19IPSigner{}, keyResolver: c19IPKeysRes{},
+		vcr: c19IPVCR{v: f.env.v, w: holder.NewMemoryWallet(f.env.ld.DocumentLoader(), c19IPKeysRes{}, c19IPSigner{}, ownWallet)}, jwtSigner: c19IPSigner{}, keyResolver: c19IPKeysRes{},
 		subjectManager: c19IPSubjects{}, jar: jar{auth: a, jwtSigner: c19IPSigner{}, keyResolver: c19IPKeysRes{}}}
 	f.e = echo.New()
 	f.e.HTTPErrorHandler = core.CreateHTTPErrorHandler()
@@ -501,7 +544,7 @@ func c19IPNewFix(x *h.Ctx, posted bool) *c19IPFix {
 	before, beforeNonce, beforeRO := f.keys("oauth/clientstate/"), f.keys("oauth/nonce/"), f.keys("oauth/requestobject/")
 	_ = beforeRO
 	all := f.keys("")
-	_, err := f.w.handleAuthorizeRequestFromHolder(audit.TestContext(), c19IPSubject, oauthParameters{
+	_, err = f.w.handleAuthorizeRequestFromHolder(audit.TestContext(), c19IPSubject, oauthParameters{
 		oauth.RedirectURIParam: c19IPClientID + "/callback", "aud": c19IPIssuerURL, oauth.CodeChallengeParam: f.pkce.Challenge, oauth.CodeChallengeMethodParam: f.pkce.ChallengeMethod,
 		oauth.ScopeParam: c19IPScope, oauth.ClientIDParam: c19IPClientID, oauth.StateParam: f.clientState, oauth.ResponseTypeParam: oauth.CodeResponseType})
 	x.NoErr(err, "valid authorization request")
@@ -732,6 +775,7 @@ func c19IPRun(x *h.Ctx, c c19IPCase) {
 		var ap c19x.Applied
 		ok := true
 		neverWrites := false
+		pdKind, mdKind := "", ""
 		switch s.Handler {
 		case "direct_post":
 			path = base + "/response"
@@ -809,6 +853,85 @@ func c19IPRun(x *h.Ctx, c c19IPCase) {
 			case 3:
 				form.Set("request", jarTok)
 				form.Set("request_uri", c19IPClientID+"/request.jwt/abc")
+			}
+		case "authorize_wallet":
+			method, path = http.MethodGet, base+"/authorize"
+			claims := map[string]any{"iss": c19IPClientID, "client_id": c19IPClientID, "aud": c19IPIssuerURL, "state": "verifier-state", "nonce": "verifier-nonce",
+				"response_type": "vp_token", "response_mode": "direct_post", "response_uri": "https://verifier.example.org/oauth2/v/response", "client_id_scheme": "entity_id",
+				"iat": json.Number(fmt.Sprint(time.Now().Unix())), "exp": json.Number(fmt.Sprint(time.Now().Unix() + 300))}
+			validPD := []byte(`{"id":"remote"}`)
+			if f.remote.pd != nil {
+				validPD, _ = json.Marshal(f.remote.pd)
+			}
+			validMD := jsonmut.Encode(map[string]any{"vp_formats": map[string]any{"jwt_vp_json": map[string]any{"alg_values_supported": []any{"ES256"}}, "jwt_vc_json": map[string]any{"alg_values_supported": []any{"ES256"}},
+				"ldp_vc": map[string]any{"proof_type_values_supported": []any{"JsonWebSignature2020"}}, "ldp_vp": map[string]any{"proof_type_values_supported": []any{"JsonWebSignature2020"}}}, "client_name": "verifier"})
+			pdKind = c19IPPDKinds[int(s.Variant/3)%len(c19IPPDKinds)]
+			mdKind = c19IPMDKinds[int(s.Variant/97)%len(c19IPMDKinds)]
+			f.remote.pdMode, f.remote.mdMode, f.remote.postedError, f.remote.postedVP = "", "", "", 0
+			if s.Target == "pd_inline" {
+				pdKind = "inline-mutated"
+			}
+			if s.Target == "md_inline" {
+				mdKind = "inline-mutated"
+			}
+			switch pdKind {
+			case "uri":
+				claims["presentation_definition_uri"] = "https://verifier.example.org/oauth2/v/presentation_definition?scope=test"
+			case "uri-zero", "uri-error":
+				claims["presentation_definition_uri"] = "https://verifier.example.org/oauth2/v/presentation_definition?scope=test"
+				f.remote.pdMode = strings.TrimPrefix(pdKind, "uri-")
+			case "inline":
+				claims["presentation_definition"] = string(validPD)
+			case "inline-mutated":
+				mutated := validPD
+				if s.Plan != nil {
+					mutated, ap = s.Plan.Apply(validPD)
+					ok = !ap.Oversize
+				}
+				claims["presentation_definition"] = string(mutated)
+			case "both":
+				claims["presentation_definition"] = string(validPD)
+				claims["presentation_definition_uri"] = "https://verifier.example.org/oauth2/v/presentation_definition?scope=test"
+			case "absent":
+			case "object": // the claim itself a JSON object rather than a string holding JSON
+				var o any
+				_ = json.Unmarshal(validPD, &o)
+				claims["presentation_definition"] = o
+			default: // a literal: null, {}, [], 1, "x", {, ...
+				claims["presentation_definition"] = pdKind
+			}
+			switch mdKind {
+			case "uri":
+				claims["client_metadata_uri"] = "https://verifier.example.org/oauth2/v/oauth-client"
+			case "uri-zero", "uri-error":
+				claims["client_metadata_uri"] = "https://verifier.example.org/oauth2/v/oauth-client"
+				f.remote.mdMode = strings.TrimPrefix(mdKind, "uri-")
+			case "inline":
+				claims["client_metadata"] = string(validMD)
+			case "inline-mutated":
+				mutated := validMD
+				if s.Plan != nil {
+					mutated, ap = s.Plan.Apply(validMD)
+					ok = !ap.Oversize
+				}
+				claims["client_metadata"] = string(mutated)
+			case "both":
+				claims["client_metadata"] = string(validMD)
+				claims["client_metadata_uri"] = "https://verifier.example.org/oauth2/v/oauth-client"
+			case "absent":
+			default:
+				claims["client_metadata"] = mdKind
+			}
+			jarTok := c19x.Compact([]byte(`{"alg":"ES256","kid":"`+c19IPHolderKid+`","typ":"oauth-authz-req+jwt"}`), jsonmut.Encode(claims), c19x.SigValid)
+			if s.Target == "jar_claims" {
+				jarTok, ap, ok = c19IPMutateJWT(jarTok, s, "claims")
+			}
+			form = url.Values{"client_id": {c19IPClientID}}
+			if s.Variant%8 == 7 {
+				f.remote.requestObject = jarTok
+				form.Set("request_uri", c19IPClientID+"/request.jwt/abc")
+			} else {
+				form.Set("request", jarTok)
 			}
 		case "request_get":
 			method, path = http.MethodGet, base+"/request.jwt/"+url.PathEscape([]string{f.requestID, f.requestID, f.requestID, "unknown", "", "../x", strings.Repeat("i", 500), f.requestIDPost}[int(s.Variant)%8])
@@ -912,6 +1035,33 @@ func c19IPRun(x *h.Ctx, c c19IPCase) {
 		}
 		if !shallow {
 			x.NonTrivial()
+		}
+		if s.Handler == "authorize_wallet" {
+			// how far the wallet role got: an error posted to the verifier (by description), a presentation posted, or an error page
+			reached := "error-page:" + bucket
+			if f.remote.postedVP > 0 {
+				reached = "presentation-posted"
+			} else if f.remote.postedError != "" {
+				d := f.remote.postedError
+				for _, k := range []string{"invalid presentation_definition", "invalid client_metadata", "mutually exclusive", "could not fulfill", "failed to get client metadata", "failed to retrieve presentation definition", "missing nonce", "client_id_scheme"} {
+					if strings.Contains(d, k) {
+						d = k
+						break
+					}
+				}
+				if len(d) > 60 {
+					d = d[:60]
+				}
+				reached = "error-posted:" + d
+			}
+			x.Class("authorize_wallet:" + reached)
+			if f.remote.postedVP > 0 || (f.remote.postedError != "" && !strings.Contains(reached, "missing nonce") && !strings.Contains(reached, "client_id_scheme")) {
+				// the request got as far as reading client_metadata / presentation_definition
+				x.Class("authorize_wallet:reached-metadata-stage:md=" + mdKind)
+				if !strings.Contains(reached, "client_metadata") && !strings.Contains(reached, "client metadata") {
+					x.Class("authorize_wallet:reached-definition-stage:pd=" + pdKind)
+				}
+			}
 		}
 		if after != before {
 			if neverWrites {
